@@ -17,6 +17,20 @@ SIGS = ("delivery-lost", "delivery-duplicated", "delivery-reordered-or-altered")
 KINDS = ["buffer", "delay", "rate_limit", "map_async", "timed_window", "partition_timeout"]
 EXTRA = ["StreamzVerif.Props.C13"]
 
+CORPUS = [
+    # one producer of a zip far ahead of the other (un-awaited emissions): pairing must stay index-wise
+    {"mode": "async", "flavour": "future", "nodes": [{"kind": "source", "ups": []}, {"kind": "source", "ups": []}, {"kind": "zipmax", "ups": [0, 1], "maxsize": 1},
+                                                      {"kind": "sink", "mode": "sync", "f": ["id"], "ups": [2]}],
+     "ops": [{"op": "settle"}] + [{"op": "emit", "node": 0, "val": v, "md": []} for v in (1, 2, 3, 4, 5)] +
+            [{"op": "emit", "node": 1, "val": v, "md": []} for v in (11, 12, 13)] + [{"op": "advance", "dt": 1}]},
+    # two producers feeding one zip input through union, each awaiting its emits
+    {"mode": "async", "flavour": "coro", "nodes": [{"kind": "source", "ups": []}, {"kind": "source", "ups": []}, {"kind": "zipmax", "ups": [0, 1], "maxsize": 2},
+                                                    {"kind": "sink", "mode": "async", "ups": [2]}],
+     "ops": [{"op": "settle"}] + [{"op": "emit", "node": 1, "val": v, "md": []} for v in (21, 22, 23, 24, 25, 26)] +
+            [{"op": "emit", "node": 0, "val": 1, "md": []}, {"op": "sinkdone", "tok": 0}, {"op": "emit", "node": 0, "val": 2, "md": []}, {"op": "sinkdone", "tok": 1},
+             {"op": "emit", "node": 0, "val": 3, "md": []}, {"op": "sinkdone", "tok": 2}, {"op": "advance", "dt": 1}]},
+]
+
 
 def corr_modules():
     mods = []
@@ -41,7 +55,7 @@ def lean_extra():
 def run(ctx):
     ctx.audit(extra_modules=lean_extra())
     n = 150 if not ctx.thorough() else 5000
-    A.sweep(ctx, n, KINDS, ["lossless"], SIGS)
+    A.sweep(ctx, n, KINDS, ["lossless"], SIGS, corpus=CORPUS, p_zip=0.25)
     for m in corr_modules():
         m.run(ctx, "C02", 40 if not ctx.thorough() else 1500)
     ctx.coverage["rule"] = ("random pipelines source -> sync* -> A -> sync* [-> A'] -> sink(s), or two sources joined by zip(maxsize), A in "
